@@ -128,6 +128,15 @@ OPAQUE_BENIGN = {
 }
 
 
+def _time_valued(x: Any, depth: int = 0) -> bool:
+    """A value of the time / datetime modules: a call into them, or a sum / difference / remainder of such values."""
+    if not (isinstance(x, tuple) and x[:1] == ("app",) and len(x) > 1 and isinstance(x[1], str)) or depth > 6:
+        return False
+    if x[1].startswith(("time.", "datetime.")):
+        return True
+    return x[1] in ("sub", "add", "mod") and any(_time_valued(y, depth + 1) for y in x[2:])
+
+
 def opaque_markers(v: Any, acc: set, seen: Optional[set] = None, depth: int = 0) -> None:
     if seen is None:
         seen = set()
@@ -138,7 +147,10 @@ def opaque_markers(v: Any, acc: set, seen: Optional[set] = None, depth: int = 0)
             return
         seen.add(id(v))
         if v and v[0] == "top":
-            acc.add("TOP:" + str(v[1])[:70])
+            if not str(v[1]).startswith("never: "):
+                # ("never: ..." is the value of an expression that always raises: the path raises at the end of the
+                # statement, nothing was approximated)
+                acc.add("TOP:" + str(v[1])[:70])
             return
         if len(v) >= 2 and v[0] == "sym" and isinstance(v[1], str) and v[1].startswith("opq:"):
             acc.add("OPQ:" + v[1][4:].split("#")[0][:60])
@@ -146,13 +158,15 @@ def opaque_markers(v: Any, acc: set, seen: Optional[set] = None, depth: int = 0)
         if len(v) == 3 and v[0] == "modvar" and v[2] != "logger":
             acc.add("MODVAR:" + str(v[2]))   # a module-level value the analyser could not evaluate
             return
+        if len(v) == 3 and v[0] in ("item", "item?") and isinstance(v[1], tuple) and v[1][:1] and v[1][0] in ("mapobj", "filterobj", "lazymap", "top"):
+            acc.add("ITEM-OF:" + str(v[1][0]))     # an element of a lazy / unevaluated iterable the analyser could not produce
         if len(v) == 3 and v[0] == "extmeth" and isinstance(v[2], str):
             # a field of a modelled pure value (struct_time.tm_hour, ...) is a projection, not an unknown
             x = v[1]
             # (also through method chains on such a value: datetime.now().astimezone().tzinfo)
             while isinstance(x, tuple) and x[:1] == ("app",) and isinstance(x[1], str) and x[1].startswith(".") and len(x) > 2:
                 x = x[2]
-            if not (isinstance(x, tuple) and x[:1] == ("app",) and isinstance(x[1], str) and x[1].startswith(("time.", "datetime."))):
+            if not _time_valued(x):
                 acc.add("EXTMETH:" + v[2])
         for x in v:
             if isinstance(x, (tuple, Lin, list)):
@@ -444,6 +458,14 @@ def int_range(v: Term) -> Optional[Tuple[Optional[int], Optional[int]]]:
         ra, rb = int_range(v[2]), int_range(v[3])
         if ra is not None and rb is not None and None not in ra and None not in rb:
             return (ra[0] + rb[0], ra[1] + rb[1]) if v[1] == "add" else (ra[0] - rb[1], ra[1] - rb[0])
+        return None
+    if isinstance(v, tuple) and v and v[0] == "eattr" and len(v) > 3 and v[3] and all(isinstance(a, int) and not isinstance(a, bool) for a in v[3]):
+        return (min(v[3]), max(v[3]))    # an integer attribute of an enum member: one of the table's values
+    if isinstance(v, tuple) and v and v[0] == "app" and v[1] == "and" and len(v) == 4:
+        # x & M with a constant M >= 0 lies in [0, M] for every integer x (two's complement)
+        ms = [x[1] for x in v[2:] if is_c(x) and isinstance(x[1], int) and not isinstance(x[1], bool) and x[1] >= 0]
+        if ms:
+            return (0, min(ms))
         return None
     if isinstance(v, tuple) and v and v[0] == "app" and v[1] == ".bit_length" and len(v) == 3:
         r = int_range(v[2])
